@@ -26,10 +26,10 @@ import (
 const derivedFilename = "derived.gen.go"
 
 type fileInfo struct {
-	astFile   *ast.File
-	fullpath  string
-	undefined []*call
-	derived   []*call
+	astFile  *ast.File
+	fullpath string
+	// calls are the calls to undefined functions and to functions defined in derived.gen.go, in source order.
+	calls     []*call
 	funcNames map[string]struct{}
 }
 
@@ -49,24 +49,19 @@ func newFileInfos(program *loader.Program, pkgInfo *loader.PackageInfo) []*fileI
 			continue
 		}
 
-		f := &finder{program, pkgInfo, nil, nil, make(map[string]struct{})}
+		f := &finder{program, pkgInfo, nil, make(map[string]struct{})}
 		for _, d := range astFile.Decls {
 			ast.Walk(f, d)
 		}
-		undefined := make([]*call, len(f.undefined))
-		for i := range f.undefined {
-			undefined[i] = newCall(pkgInfo, f.undefined[i])
-		}
-		derived := make([]*call, len(f.derived))
-		for i := range f.derived {
-			derived[i] = newCall(pkgInfo, f.derived[i])
+		calls := make([]*call, len(f.calls))
+		for i := range f.calls {
+			calls[i] = newCall(pkgInfo, f.calls[i])
 		}
 
 		files = append(files, &fileInfo{
 			astFile:   pkgInfo.Files[i],
 			fullpath:  fullpath,
-			undefined: undefined,
-			derived:   derived,
+			calls:     calls,
 			funcNames: f.funcNames,
 		})
 	}
@@ -74,10 +69,12 @@ func newFileInfos(program *loader.Program, pkgInfo *loader.PackageInfo) []*fileI
 }
 
 type finder struct {
-	program   *loader.Program
-	pkgInfo   *loader.PackageInfo
-	undefined []*ast.CallExpr
-	derived   []*ast.CallExpr
+	program *loader.Program
+	pkgInfo *loader.PackageInfo
+	// calls to functions that are undefined or defined in derived.gen.go.
+	// These are kept in one list, in source order, such that the order of the generated functions
+	// does not depend on which of the functions were already present in derived.gen.go.
+	calls     []*ast.CallExpr
 	funcNames map[string]struct{}
 }
 
@@ -92,7 +89,7 @@ func (f *finder) Visit(node ast.Node) (w ast.Visitor) {
 	}
 	def, ok := f.pkgInfo.Uses[fn]
 	if !ok {
-		f.undefined = append(f.undefined, call)
+		f.calls = append(f.calls, call)
 		return f
 	}
 	if _, ok := def.(*types.Builtin); ok {
@@ -105,7 +102,7 @@ func (f *finder) Visit(node ast.Node) (w ast.Visitor) {
 	}
 	_, filename := filepath.Split(file.Name())
 	if filename == derivedFilename {
-		f.derived = append(f.derived, call)
+		f.calls = append(f.calls, call)
 		return f
 	}
 	f.funcNames[fn.Name] = struct{}{}
